@@ -41,16 +41,21 @@ ASSUMPTIONS = [
     "theorem hypotheses: every assertion is a boolean and everything belonging to a FALSE assertion evaluates "
     "(C13_first_false_decides); messages of passing assertions are unconstrained",
     "f-string / int() of celpy values: modelled for str, int, bool, None and ASCII numerals (other texts are not compared)",
-    "ResourceFunction: reconcile_krm_resource is an arbitrary function in the model (Section variable); "
-    "the run against an in-memory cluster is pending (RF_AVAILABLE)",
+    "ResourceFunction: reconcile_krm_resource is an arbitrary function in the model (Section variable); the real "
+    "function is run against a sentinel API that refuses every access (preconditions part); the postconditions "
+    "part needs the in-memory cluster and is pending (RF_AVAILABLE)",
 ]
 TRUSTED = ["in-process wrapper around celpy.InterpretedRunner.evaluate that records, per evaluation site, "
            "what celpy did"]
 
-# TODO(coordinator): set to True and implement `run_rf` once harness/cluster.py (in-memory kr8s API
-# double with a call log) exists: build a ResourceFunction with these preconditions, reconcile it
-# against the double and require an EMPTY call log whenever the precondition outcome is not None
-# (model theorem: P_C13.C13_rf_cluster_not_touched).
+# ResourceFunctions are run against a *sentinel* API object that records and refuses every
+# attribute access (mode "rf"): enough to observe "preconditions decided => cluster not touched,
+# locals not evaluated".
+# TODO(coordinator): set RF_AVAILABLE to True and implement `run_rf_cluster` once harness/cluster.py
+# (in-memory kr8s API double with a call log) exists: reconcile ResourceFunctions whose preconditions
+# CONTINUE against the double, so that postconditions are reached, and require that a non-None
+# postcondition outcome is the result and `return` is not evaluated
+# (model theorems: P_C13.C13_rf_cluster_not_touched, C13_rf_post_body_not_evaluated).
 RF_AVAILABLE = False
 
 LOC = "fn"
@@ -136,7 +141,7 @@ def c_obs(o) -> str:
     return f"(OOut {cnat(sev)} {copt(delay, cz)} {cstr(msg)} {copt(loc, cstr)})"
 
 
-SITES = {"pre": "SPre", "locals": "SLocals", "return": "SReturn"}
+SITES = {"pre": "SPre", "locals": "SLocals", "return": "SReturn", "post": "SPost", "resource": "SResource"}
 
 
 # --------------------------------------------------------------------------
@@ -366,6 +371,68 @@ def run_vf(case):
             "index": fn.return_value.value_index if fn.return_value is not None else None}
 
 
+class Touched(Exception):
+    pass
+
+
+class SentinelApi:
+    """Stands for the cluster: records and refuses every use."""
+
+    def __init__(self):
+        object.__setattr__(self, "touches", [])
+
+    def __getattr__(self, name):
+        self.touches.append(name)
+        raise Touched(name)
+
+
+OWNER = ("ns", {"apiVersion": "v1", "kind": "Owner", "metadata": {"name": "o", "uid": "u-1", "namespace": "ns"}})
+
+
+def run_rf(case):
+    """A real ResourceFunction against the sentinel API. -> dict or None if prepare failed."""
+    import celpy
+    from koreo.resource_function.prepare import prepare_resource_function
+    from koreo.resource_function.reconcile import reconcile_resource_function
+    from koreo.resource_function.structure import ResourceFunction
+    b = Builder()
+    spec = {"apiConfig": {"apiVersion": "test.koreo.dev/v1", "kind": "TestResource", "plural": "testresources",
+                          "name": "obj", "namespace": "ns"},
+            "resource": {"spec": {"v": 1}},
+            "return": {"r": "=resource.spec.v"}}
+    if case["preds"] is not None:
+        spec["preconditions"] = [b.spec(p) for p in case["preds"]]
+    if case.get("locals") is not None:
+        spec["locals"] = b.spec(case["locals"])
+    prepared = run_async(prepare_resource_function("k", spec))
+    if not (isinstance(prepared, tuple) and isinstance(prepared[0], ResourceFunction)):
+        return None
+    fn = prepared[0]
+    api = SentinelApi()
+    with recording() as log:
+        try:
+            r = run_async(reconcile_resource_function(api, LOC, fn, OWNER, celpy.json_to_cel(b.inputs)))
+            obs = observe(r.outcome)
+            if obs == ["none"]:
+                obs = ["val", ["n"]]
+        except Touched:
+            obs = ["raised", "Touched"]
+        except Exception as e:
+            obs = ["raised", type(e).__name__]
+    site_of = {id(fn.preconditions): "pre", id(fn.local_values): "locals",
+               id(fn.postconditions): "post", id(fn.return_value): "return"}
+    site_of.pop(id(None), None)
+    trace, raws = [], {}
+    for rn, x in log:
+        st = site_of.get(id(rn), "resource")
+        if st == "resource" and trace and trace[-1] == "resource":
+            continue
+        trace.append(st)
+        raws[st] = x
+    return {"obs": obs, "trace": trace, "raws": raws, "touches": list(api.touches),
+            "has": {"pre": fn.preconditions is not None, "locals": fn.local_values is not None}}
+
+
 # --------------------------------------------------------------------------
 # Gallina terms
 # --------------------------------------------------------------------------
@@ -394,6 +461,15 @@ def term_vf(case, out) -> str:
         base = "(Some " + clist(tree_of(case["base"])[1], lambda kv: cpair(c_tree(kv[0]), c_tree(kv[1]))) + ")"
     trace = clist(out["trace"], lambda s: SITES[s])
     return f"CVf {pre} {pre_raw} {locals_} {ret} {base} {cstr(LOC)} {c_obs(out['obs'])} {trace}"
+
+
+def term_rf(case, out) -> str:
+    pre = "None" if not out["has"]["pre"] else "(Some " + clist([doc_tree(p) for p in case["preds"]], c_tree) + ")"
+    pre_raw = copt(out["raws"].get("pre"), c_raw)
+    locals_ = "None" if not out["has"]["locals"] else f"(Some {c_raw(out['raws'].get('locals', ['raise']))})"
+    trace = clist(out["trace"], lambda s: SITES[s])
+    return (f"CRf {pre} {pre_raw} {locals_} {cstr(LOC)} {cbool(bool(out['touches']))} "
+            f"{c_obs(out['obs'])} {trace}")
 
 
 # --------------------------------------------------------------------------
@@ -536,6 +612,26 @@ def oracle_vf(case, out):
     return None
 
 
+def oracle_rf(case, out, pre_obs):
+    """Preconditions decided => the cluster is not touched, nothing else is evaluated, and the
+    precondition outcome is the result."""
+    obs, trace = out["obs"], out["trace"]
+    if pre_obs is None or not out["has"]["pre"]:
+        return None
+    if pre_obs[0] != "none":
+        if out["touches"]:
+            return ("rf: cluster touched although the preconditions decided",
+                    f"preconditions gave {pre_obs} but the API object was used: {out['touches']}")
+        if [s for s in trace if s != "pre"]:
+            return ("rf: body evaluated although the preconditions decided",
+                    f"preconditions gave {pre_obs} but sites {trace} were evaluated")
+        unloc = lambda m: re.sub(r"`[^`]*`", "`_`", m)
+        if obs[:3] != pre_obs[:3] or (obs[0] == "out" and unloc(obs[3]) != unloc(pre_obs[3])):
+            return ("rf: result is not the precondition outcome",
+                    f"preconditions gave {pre_obs} but the function returned {obs}")
+    return None
+
+
 # --------------------------------------------------------------------------
 # generators
 # --------------------------------------------------------------------------
@@ -663,7 +759,7 @@ def rand_pred(rng, i, p_false, noise):
 
 def gen_random(ctx: Ctx):
     rng = ctx.rng
-    n_cases = 700 if ctx.quick() else 12000
+    n_cases = 1200 if ctx.quick() else 15000
     for _ in range(n_cases):
         n = rng.choice([1, 2, 2, 3, 3, 4, 5, 6, 8, 12, 20])
         p_false = rng.choice([0.0, 0.1, 0.3, 0.5, 0.9])
@@ -710,7 +806,7 @@ def gen_vf(ctx: Ctx):
                       for i, (k, t) in enumerate(zip(kinds, truth))]
                 loc, ret = BODIES[(n + len(kinds) + sum(truth)) % 6]
                 yield {"mode": "vf", "preds": ps, "locals": loc, "ret": ret, "base": None, "tag": "vf-exhaustive"}
-    n_cases = 150 if ctx.quick() else 3000
+    n_cases = 300 if ctx.quick() else 4000
     made = 0
     while made < n_cases:
         n = rng.choice([0, 1, 2, 3, 5, 9, 20])
@@ -729,6 +825,32 @@ def gen_vf(ctx: Ctx):
         yield {"mode": "vf", "preds": ps if ps else None, "locals": loc, "ret": ret, "base": base, "tag": "vf-random"}
 
 
+RF_LOCALS = [None, M(("x", L(["in", 4]))), M(("x", L(["err", "=1/0"]))), M(("x", L(["err", "=inputs.nope.x"])))]
+
+
+def gen_rf(ctx: Ctx):
+    rng = ctx.rng
+    for n in (1, 2):
+        for kinds in itertools.product(KINDS, repeat=n):
+            for truth in itertools.product([True, False], repeat=n):
+                ps = [pred(["in", t], k, ["lit", f"message {i}"], ["lit", 10 + i])
+                      for i, (k, t) in enumerate(zip(kinds, truth))]
+                yield {"mode": "rf", "preds": ps, "locals": RF_LOCALS[(n + sum(truth)) % 4], "tag": "rf-exhaustive"}
+    n_cases = 150 if ctx.quick() else 2500
+    made = 0
+    while made < n_cases:
+        n = rng.choice([0, 1, 2, 3, 5, 9, 20])
+        p_false = rng.choice([0.0, 0.1, 0.3, 0.6])
+        noise = rng.choice([0.0, 0.1, 0.3])
+        ps = []
+        while len(ps) < n:
+            p = rand_pred(rng, len(ps), p_false, noise)
+            if vf_ok(p):
+                ps.append(p)
+        made += 1
+        yield {"mode": "rf", "preds": ps if ps else None, "locals": rng.choice(RF_LOCALS), "tag": "rf-random"}
+
+
 def gen_cases(ctx: Ctx):
     for c in corpus_cases("C13"):
         yield c
@@ -736,6 +858,7 @@ def gen_cases(ctx: Ctx):
     yield from gen_positions(ctx)
     yield from gen_random(ctx)
     yield from gen_vf(ctx)
+    yield from gen_rf(ctx)
 
 
 # --------------------------------------------------------------------------
@@ -755,6 +878,14 @@ def check_pred(ctx: Ctx, case, shrink=True):
         ctx.count("skipped:spec does not prepare")
         return None
     raw, obs = got
+    ctx.count("pred-result:" + (obs[0] if obs[0] != "out" else ["DepSkip", "Skip", "Ok", "Retry", "PermFail"][obs[1]]))
+    ctx.count("celpy:" + raw[0])
+    vs = [view(p) for p in case["preds"]]
+    if all(v["a"][0] == "bool" for v in vs):
+        nf = sum(1 for v in vs if v["a"][1] is False)
+        ctx.count(f"false-assertions:{nf if nf < 3 else '3+'}")
+    else:
+        ctx.count("false-assertions:n/a (non-boolean present)")
     bad = oracle_pred(case["preds"], obs)
     if bad:
         sig, why = bad
@@ -810,9 +941,35 @@ def check_vf(ctx: Ctx, case):
     return term_vf(case, out)
 
 
+def check_rf(ctx: Ctx, case):
+    out = run_rf(case)
+    if out is None:
+        ctx.count("skipped:rf does not prepare")
+        return None
+    pre_obs = None
+    if case["preds"]:
+        g = run_pred({"preds": case["preds"]})
+        pre_obs = g[1] if g else None
+    bad = oracle_rf(case, out, pre_obs)
+    if bad:
+        sig, why = bad
+        b2 = Builder()
+        spec = {"preconditions": [b2.spec(p) for p in case["preds"] or []]}
+        ctx.fail(Failure(signature=sig, what=why, case=case,
+                         observed={"spec": spec, "inputs": b2.inputs, "result": out["obs"], "trace": out["trace"],
+                                   "api_touches": out["touches"]}))
+    ctx.count("rf:cluster touched" if out["touches"] else "rf:cluster not touched")
+    if has_raise(case["preds"] or []):
+        return None
+    return term_rf(case, out)
+
+
 def check_one(ctx: Ctx, case):
-    if case.get("mode", "pred") == "vf":
+    mode = case.get("mode", "pred")
+    if mode == "vf":
         return check_vf(ctx, case)
+    if mode == "rf":
+        return check_rf(ctx, case)
     return check_pred(ctx, case)
 
 
@@ -834,14 +991,14 @@ def run(ctx: Ctx):
             cases.append(case)
             terms.append(term)
     if RF_AVAILABLE:
-        run_rf(ctx)
+        run_rf_cluster(ctx)
     else:
-        ctx.count("rf:pending (harness/cluster.py not available)")
+        ctx.count("rf-postconditions:pending (harness/cluster.py not available)")
     if ctx.model_ok:
         ctx.correspond("evaluate_predicates / reconcile_value_function vs Predicates.v", "Corr_C13", cases, terms)
 
 
-def run_rf(ctx: Ctx):   # pragma: no cover - see RF_AVAILABLE
+def run_rf_cluster(ctx: Ctx):   # pragma: no cover - see RF_AVAILABLE
     raise NotImplementedError("needs harness/cluster.py")
 
 
